@@ -19,3 +19,21 @@ package oconf
 //@   assert@call fn#* : ok && $arg0 == ite(v == "gzip", GzipCompression, NoCompression)
 //@   ghost@call fn#* : confCalls = confCalls + 1
 //@   assert@return#* : confCalls == ite(ok, 1, 0)
+
+// reader order in getOptionsFromEnv: for every setting the generic OTEL_EXPORTER_OTLP_* key is read BEFORE the signal-specific one;
+// the options collected are applied in that order and the last one wins, so the signal-specific variable overrides the generic one
+//@ func getOptionsFromEnv() (opts []GenericOption)
+//@   prop C20
+//@   overflow assumed
+//@   unchecked frame,no-panic TLS material, URL parsing and the option closures are outside the contracts
+//@   assert@call WithURL#1 : $arg0 == "ENDPOINT"
+//@   assert@call WithURL#2 : $arg0 == "METRICS_ENDPOINT"
+//@   assert@call WithBool#1 : $arg0 == "INSECURE"
+//@   assert@call WithBool#2 : $arg0 == "METRICS_INSECURE"
+//@   assert@call WithHeaders#1 : $arg0 == "HEADERS"
+//@   assert@call WithHeaders#2 : $arg0 == "METRICS_HEADERS"
+//@   assert@call WithEnvCompression#1 : $arg0 == "COMPRESSION"
+//@   assert@call WithEnvCompression#2 : $arg0 == "METRICS_COMPRESSION"
+//@   assert@call WithDuration#1 : $arg0 == "TIMEOUT"
+//@   assert@call WithDuration#2 : $arg0 == "METRICS_TIMEOUT"
+// each compression / timeout / headers callback appends the option made from exactly the value it was given
